@@ -360,3 +360,54 @@ func trimStack(st []byte) string {
 	}
 	return strings.Join(out, " | ")
 }
+
+// FinishMerge is Finish for a supplementary stage of a property's check that runs as a
+// separate program after the main stage (the write monitor, which needs the instrumented
+// build): instead of replacing evidence/<id>.json it adds its own coverage under
+// coverage.<section> and its violations to the total.
+func (r *Run) FinishMerge(section, rule string) int {
+	r.mu.Lock()
+	defer r.mu.Unlock()
+	path := filepath.Join(outDir(), "evidence", r.ID+".json")
+	ev := map[string]any{}
+	if b, err := os.ReadFile(path); err == nil {
+		_ = json.Unmarshal(b, &ev)
+	}
+	cov, _ := ev["coverage"].(map[string]any)
+	if cov == nil {
+		fmt.Printf("%s %s: no evidence of the main stage to merge into (%s)\n", r.ID, section, path)
+		return 2
+	}
+	sec := map[string]any{"evaluations": r.evals.Load(), "distinct_nontrivial": len(r.distinct), "rule": rule, "violations": r.violations, "wall_s": time.Since(r.start).Seconds()}
+	for k, v := range r.notes {
+		sec[k] = v
+	}
+	keys := make([]string, 0, len(r.vioKeys))
+	for k := range r.vioKeys {
+		keys = append(keys, k)
+	}
+	sort.Strings(keys)
+	if len(keys) > 0 {
+		sec["violation_keys"] = keys
+	}
+	cov[section] = sec
+	if v, ok := ev["violations"].(float64); ok {
+		ev["violations"] = int(v) + r.violations
+	}
+	if len(r.harnessErr) > 0 {
+		ev["harness_errors"] = r.harnessErr
+	}
+	b, _ := json.MarshalIndent(ev, "", " ")
+	if err := os.WriteFile(path, b, 0o644); err != nil {
+		fmt.Println("cannot write evidence:", err)
+		return 2
+	}
+	fmt.Printf("%s %s %s: evaluations=%d distinct=%d violations=%d wall=%.1fs\n", r.ID, r.Tier, section, r.evals.Load(), len(r.distinct), r.violations, time.Since(r.start).Seconds())
+	if r.violations > 0 {
+		return 1
+	}
+	if len(r.harnessErr) > 0 {
+		return 2
+	}
+	return 0
+}
